@@ -233,6 +233,55 @@ pub fn run(cfg: &Cfg) -> Report {
         });
         st
     });
+    // every comment body up to a length over a hostile alphabet, at every gap of a few fixed sequences
+    let bodies = {
+        let chars = ['*', '/', 'a', ' ', '\n', '"', '='];
+        let mut out: Vec<String> = vec![String::new()];
+        let mut frontier = vec![String::new()];
+        for _ in 0..cfg.tier.pick(4, 6) {
+            let mut next = Vec::new();
+            for b in &frontier {
+                for c in chars {
+                    let mut n = b.clone();
+                    n.push(c);
+                    next.push(n);
+                }
+            }
+            out.extend(next.iter().cloned());
+            frontier = next;
+        }
+        out
+    };
+    let fixed: Vec<Vec<&'static str>> = vec![vec!["1", "+", "2"], vec!["a", "b2"], vec!["(", "a", "=", "1", ")"], vec!["a", "/", "2.5"], vec!["\"/*\"", "==", "\"//\""]];
+    let body_stats = par_chunks(bodies.len() as u64, 256, |r| {
+        let mut st = Stats::new();
+        for i in r {
+            let body = &bodies[i as usize];
+            let seps_menu = [format!("/*{}*/", body), format!("//{}\n", body), format!(" /*{}*/ ", body)];
+            for toks in &fixed {
+                let base_src = toks.join(" ");
+                let intended = match lex(&base_src) {
+                    Ok(t) => t,
+                    Err(_) => continue,
+                };
+                let base_res = match parse(&base_src) {
+                    Ok(r) => r,
+                    Err(_) => continue,
+                };
+                let b = Base { toks: toks.clone(), intended, base_src, base_res };
+                let gaps = toks.len() + 1;
+                for g in 0..gaps {
+                    for m in &seps_menu {
+                        let seps: Vec<&str> = (0..gaps).map(|k| if k == g { m.as_str() } else if k == 0 || k == gaps - 1 { "" } else { " " }).collect();
+                        compare(&b, &seps, &mut st);
+                        st.count("comment-body-renderings");
+                    }
+                }
+            }
+        }
+        st
+    });
+    stats.merge(body_stats);
     for (toks, seps) in [
         (vec!["a", "b2"], vec!["", "/**/", ""]),
         (vec!["1", "<", "=", "2.5"], vec!["", " ", "/**/", "\u{2003}", ""]),
@@ -251,7 +300,7 @@ pub fn run(cfg: &Cfg) -> Report {
     Report {
         property: ID,
         level: "exploration",
-        rule: format!("every token sequence of length <= {max_len} over a {a}-token alphabet (words, strings containing comment markers, every operator and punctuation token), well-formed or not; per sequence: each gap (incl. before the first and after the last token) takes each of {} separators (the 25 White_Space code points, block and line comments, mixtures, the empty separator) while the other gaps cycle through a core menu, plus all gaps jointly over the {core_n}-entry core menu for sequences of length <= {joint_upto}; a rendering is compared only if the reference lexer still reads the intended token sequence (so fusing renderings are skipped); plus 4 unterminated-comment tails per sequence. Non-trivial = sequences of >= 2 tokens; distinct by token sequence", full.len()),
+        rule: format!("every token sequence of length <= {max_len} over a {a}-token alphabet (words, strings containing comment markers, every operator and punctuation token), well-formed or not; per sequence: each gap (incl. before the first and after the last token) takes each of {} separators (the 25 White_Space code points, block and line comments, mixtures, the empty separator) while the other gaps cycle through a core menu, plus all gaps jointly over the {core_n}-entry core menu for sequences of length <= {joint_upto}; a rendering is compared only if the reference lexer still reads the intended token sequence (so fusing renderings are skipped); plus 4 unterminated-comment tails per sequence; plus every comment body up to 4 (quick) / 6 (thorough) characters over `* / a space newline \" =` as a block and as a line comment at every gap of 5 fixed sequences. Non-trivial = sequences of >= 2 tokens; distinct by token sequence", full.len()),
         nontrivial_set: "nontrivial",
         exhaustive: true,
         bound_completed: format!("token sequences of length {max_len}"),
